@@ -904,8 +904,10 @@ fn op_quantile<T: OrdElem>(cx: &mut Ctx, scn: &Scenario, w: &mut World<T>, op: &
             Outcome::Done(Ok(r2)) => {
                 let a: Vec<i64> = res.iter().map(|x| x.to_raw()).collect();
                 let b: Vec<i64> = r2.iter().map(|x| x.to_raw()).collect();
-                let same = res.shape() == r2.shape() && a.iter().zip(&b).all(|(x, y)| num_of_raw(ty, *x).num_eq(num_of_raw(ty, *y)));
-                if !same {
+                let same = res.shape() == r2.shape() && a.iter().zip(&b).all(|(x, y)| x == y || num_of_raw(ty, *x).num_eq(num_of_raw(ty, *y)));
+                if !same && overflow_possible {
+                    cx.known("interp-spread-overflow", format!("{} results differ between schedules on a lane whose higher - lower is not representable", op.name));
+                } else if !same {
                     cx.fail("quantile-schedule-dependent", format!("{} {} q={:?}: result {:?} under one pivot schedule, {:?} under another", op.name, op.strat.name(), op.qs, res, r2));
                 }
             }
